@@ -22,7 +22,7 @@ var rec = vh.NewRecorder("C01", "concurrent-clients",
 		"token, the backend echoes it into status-independent places plus a per-invocation nonce; non-trivial = at least 2 requests "+
 		"measured simultaneously in flight at the backend; distinct = SHA-256 of the canonical case")
 
-func TestMain(m *testing.M) { vh.Main(m, rec) }
+func TestMain(m *testing.M) { vh.Main(m, rec, recR) }
 
 type Req struct {
 	Method    string `json:"method"`
